@@ -44,11 +44,11 @@ P['C13'] = {
     'assumptions': ['find_right_crc contract trusted; spec_crc / spec_byte are tied to calc_crc / bits2byte only through the Kani group', 'chunk independence of HdlcDeframer (C08) is not claimed: the automaton state is carried in self.state and work() applies update_state bit by bit, but no mirror function of the whole automaton is proved'],
 }
 P['C14'] = {
-    'units': ['kani:codecs', 'fsrc', 'tcp'],
+    'units': ['kani:codecs', 'fsrc', 'tcp', 'au'],
     'technique': 'Kani/CBMC loop-free full-domain proofs of Sample::{serialize,parse,size} for u8,u32,i32,f32,Complex',
-    'level_text': 'Codecs + file source: FileSource::work reassembles exactly the file\'s samples for EVERY segmentation of the byte stream (read() may return any 1..=len bytes, incl. splits inside a sample), repeated `count` times (Verus, stream + reader contract). parse(serialize(x)) is bit-identical to x for every bit pattern (NaN payloads included), serialize(x).len() == size(), parse never errs on size() bytes and serialize(parse(d)) == d for every byte pattern; Complex wire order I then Q, little endian. TcpSource::work likewise for a socket. SigMF/AU and the sink-then-source file round trip are NOT decided.',
+    'level_text': 'Codecs + file source: FileSource::work reassembles exactly the file\'s samples for EVERY segmentation of the byte stream (read() may return any 1..=len bytes, incl. splits inside a sample), repeated `count` times (Verus, stream + reader contract). parse(serialize(x)) is bit-identical to x for every bit pattern (NaN payloads included), serialize(x).len() == size(), parse never errs on size() bytes and serialize(parse(d)) == d for every byte pattern; Complex wire order I then Q, little endian. TcpSource::work likewise for a socket. AuDecode::work: header state machine, then exactly one sample per two payload bytes (no extra or missing samples). SigMF, AuEncode and the sink-then-source file round trip are NOT decided.',
     'level_note': 'Loop-free harnesses over the full input domain are complete proofs. FileSource, TcpSource, SigMFSource, AuEncode/AuDecode use BufReader, sockets, tar, serde_json and iterator chains: outside Verus\' subset; Kani cannot run streams.',
-    'not_covered': ['FileSink-then-FileSource round trip as a whole (each half is under contract separately: C17 fsink, C14 fsrc; the link parse(serialize(x)) == x is the Kani group)', 'SigMFSource (recording, archive)', 'AuEncode / AuDecode', 'Sample for String (TODO in source)'],
+    'not_covered': ['FileSink-then-FileSource round trip as a whole (each half is under contract separately: C17 fsink, C14 fsrc; the link parse(serialize(x)) == x is the Kani group)', 'SigMFSource (recording, archive)', 'AuEncode (float quantisation loop)', 'Sample for String (TODO in source)'],
 }
 
 P['C16'] = {
@@ -79,7 +79,7 @@ P['C08'] = {
     'not_covered': _NOT_COVERED_BLOCKS, 'assumptions': _BLOCK_ASSUME,
 }
 P['C09'] = {
-    'units': list(_BU) + _FIR + ['hdlc', 'fsrc', 'fsink', 'tcp'],
+    'units': list(_BU) + _FIR + ['hdlc', 'fsrc', 'fsink', 'tcp', 'au'],
     'technique': 'Verus: call-site preconditions of consume/produce (n <= window, window belongs to the stream, not stale) and verdict postconditions on each covered work()',
     'level_text': 'Deductive proof for the same subset: every consume/produce call site stays within its window; WaitForStream(s, need) is returned only when stream s offered fewer than need in this call; Again only from a call that consumed or produced; an empty input window yields a wait on the input. No window escapes work() (windows are moved into consume/produce or dropped; checked syntactically by rule X-WIN).',
     'level_note': 'Subset only. "holds no window after return" is a syntactic check of the extractor, stated as such.',
@@ -100,11 +100,11 @@ P['C12'] = {
     'not_covered': _NOT_COVERED_BLOCKS + ['FirFilter / FftFilter / Hilbert tag forwarding'], 'assumptions': _BLOCK_ASSUME,
 }
 P['C15'] = {
-    'units': ['skip', 'delay', 'v2s', 'fir', 'resampler', 'hdlc', 'tcp', 'kani:lfsr', 'kani:hdlc', 'kani:codecs'],
+    'units': ['skip', 'delay', 'v2s', 'fir', 'resampler', 'hdlc', 'tcp', 'au', 'kani:lfsr', 'kani:hdlc', 'kani:codecs'],
     'technique': 'Verus panic-freedom obligations (refuse/overflow/bounds/callee preconditions unreachable for arbitrary sample values) + Kani totality harnesses over all input bytes',
     'level_text': 'Deductive proof for a stated subset: in the covered work() bodies no panic site is reachable for any sample values; bits2byte, calc_crc (lengths 1..2, thorough ..4) and the codecs\' parse never panic for any byte values; the two LFSR steps are checked for every input byte.',
     'level_note': 'Subset only: AuDecode header arithmetic, HdlcDeframer::update_state, wpcr, sigmf, StreamToPdu, symbol sync, zero crossing are not decided.',
-    'not_covered': ['AuDecode', 'HdlcDeframer::work/update_state', 'wpcr', 'sigmf', 'StreamToPdu', 'SymbolSync', 'ZeroCrossing', 'TcpSource'] , 'assumptions': _BLOCK_ASSUME,
+    'not_covered': ['wpcr', 'sigmf', 'StreamToPdu', 'SymbolSync', 'ZeroCrossing', 'TcpSource'] , 'assumptions': _BLOCK_ASSUME,
 }
 
 P['C17'] = {
